@@ -21,7 +21,8 @@ namespace BitSerializer::Detail
 			auto hint = cont.begin();
 			while (!scope.IsEnd())
 			{
-				TValue value;
+				// Value-initialize: an element which is skipped by policy must not be inserted with an indeterminate value
+				TValue value{};
 				Serialize(scope, value);
 				hint = cont.insert(hint, std::move(value));
 			}
